@@ -187,8 +187,8 @@ package expand
 //@ func Arithm
 //@ trusted "ghost instrumentation: records the call"
 //@ returns (r, err)
-//@ ensures arClock == old(arClock) + 1 && arRhsTime == arClock && arRhs == r
-//@ modifies heap, arClock, arRhsTime, arRhs
+//@ ensures arClock == old(arClock) + 1 && arRhsTime == arClock && arRhs == r && arRhsErr == (err != nil)
+//@ modifies heap, arClock, arRhsTime, arRhs, arRhsErr
 
 //@ func atoi
 //@ trusted "names the result: atoi is a function of its argument"
@@ -218,6 +218,34 @@ package expand
 //@ ensures [xor] implies(err == nil && old(b.Op) == syntax.XorAssgn, r == int(assgnOld() ^ assgnArg()))
 //@ ensures [shl] implies(err == nil && old(b.Op) == syntax.ShlAssgn && 0 <= assgnArg() && assgnArg() <= 63, r == int(assgnOld() << uint(assgnArg())))
 //@ ensures [shr] implies(err == nil && old(b.Op) == syntax.ShrAssgn && 0 <= assgnArg() && assgnArg() <= 63, r == int(assgnOld() >> uint(assgnArg())))
+
+// ---- C33: ${a[@]:offset} on a sparse array slices by index. With off the evaluated offset (named by the ghost
+// instrumentation of Arithm above): a negative off counts from one past the maximum index, and if it is still negative
+// the result is empty (as for dense arrays); otherwise the result is exactly the suffix of elements whose index is at
+// least the effective offset. The closure slicePos clamps into [0, len(elems)]. ----
+
+//@ spec sparseFrom(elems []string, indexes []int, res []string, off int) bool =
+//@     len(res) <= len(elems) &&
+//@     all(q, 0, len(elems) - len(res), indexes[q] < off) &&
+//@     all(q, len(elems) - len(res), len(elems), indexes[q] >= off) &&
+//@     all(j, 0, len(res), res[j] == elems[len(elems) - len(res) + j])
+//@ spec sparseEff(off int, max int) int = ite(off >= 0, off, ite(off + max + 1 >= 0, off + max + 1, max + 1))
+
+//@ func Config.sliceElems$1
+//@ props C33 C28
+//@ ensures [clamped] 0 <= result && result <= len(*elems)
+//@ pure
+
+//@ func Config.sliceElems
+//@ props C33 C28
+//@ requires [variable-invariant] wfArr(elems, indexes)
+//@ requires [ast] pe != nil
+//@ stable elems[*] indexes[*] *pe *pe.Slice
+//@ note stable: Arithm may assign shell variables, but it writes neither the syntax tree (C29) nor, in place, the containers of a variable (C27)
+//@ ensures [no-slice] implies(old(pe.Slice) == nil, len(result) == len(elems))
+//@ ensures [sparse-offset] implies(old(pe.Slice) != nil && !positional && len(indexes) > 0 && old(pe.Slice.Offset) != nil && old(pe.Slice.Length) == nil && !arRhsErr,
+//@     sparseFrom(elems, indexes, result, sparseEff(arRhs, indexes[len(indexes)-1])))
+//@ ensures [never-longer] implies(!positional, len(result) <= len(elems))
 
 // ---- C23: ReadFields. Bash itself is not available as an oracle; what is decided is that the splitting loop keeps a
 // well-formed list of field ranges over the unescaped runes (ordered, inside the line, only the last one open), that
